@@ -115,6 +115,18 @@ CLAIMED = {
    note='Trusted: Coq kernel; extraction + driver; recv()/recvfrom boundaries are scripted by replacing network.recv / client.recvfrom from outside (no source hooks); '
         'bytes are modelled as non-negative integers; kernel socket behaviour, threads and the accept loop are exercised only by the TCP smoke run (not modelled).',
    technique='Coq proof (fold/append lemmas, invariant of the byte-step framer, exactness by induction over frames) + model/implementation correspondence', design='6 C02'),
+ 'C17': dict(
+   text='Coq theorems (Properties/C17.v) over an exact-arithmetic model (Model/Times.v): for every instant (any rational, hence any float), precision and zone table, '
+        'the wall-clock fields + fraction that render produces parse back - with no DST designation or with the rendered one - to the rendered instant or are refused, '
+        'never to another instant; unambiguous readings are accepted, a DST/non-DST overlap is refused without designation and resolved with it; the calendar maps '
+        'every day number in Z to a valid date that maps back (one 400-year era by kernel computation, the rest by periodicity); a < b under the 1 ms epsilon implies '
+        'the millisecond renderings are strictly ordered and equal renderings compare equal; rounding is to nearest (carries into the next second); every duration '
+        '(seconds >= 0, microseconds) formats to components that parse back to it.  Tie: timestamp.render / timestamp(text) / comparisons / duration str+parse / '
+        'parse_seconds against the extracted model around daylight-saving transitions of tz-database zones, rounding fractions and millisecond-apart pairs.',
+   note='Trusted: Coq kernel (era check via vm_cast_no_check => the VM is in the base for C17_calendar / C17_render_parse); extraction + driver; floats enter as exact rationals; '
+        'independent TZif reader for the zone files zoneinfo uses, instants 1971..2036; text <-> numeric fields by the harness regex.  DST abbreviations (MST/MDT) cannot be run '
+        'against the implementation here (support_abbreviations needs classic pytz; the environment has the zoneinfo shim): those theorems stand on the model alone.',
+   technique='Coq proof (nia bounds for round-half-even, periodicity + computed era for the calendar, list induction for zones, digit lemmas for durations) + correspondence', design='6 C17'),
 }
 PENDING = {}
 ALL = ['C%02d' % i for i in range(1, 21)]
